@@ -370,3 +370,7 @@ def run(rep: Report, prog: Program, tier: str) -> None:
                             "has no decoder thread to do it): after close() the received track stays live and recv() blocks for ever", construct="end-of-track on every path"))
     else:
         rep.ok("C19-TRACK", "RTCRtpReceiver.stop: end-of-track signalled whether or not the receiver had been started", sample=f"{len(act.returns)} exit(s)")
+
+    # ---------------- C19-SIGNALING (= C14-ABSORB): a negotiation call resumed after close() cannot move signalingState away from closed
+    from .common import import_rules
+    import_rules(rep, prog, tier, PROP, "C19-SIGNALING", "C14", ["C14-ABSORB"], "signalingState stays closed after close() (rule C14-ABSORB)", 5)
